@@ -19,8 +19,10 @@ import (
 	"flag"
 	"fmt"
 	"go/ast"
+	"go/importer"
 	"go/parser"
 	"go/token"
+	"go/types"
 	"os"
 	"path/filepath"
 	"sort"
@@ -53,6 +55,9 @@ type crashSpec struct {
 	funcs map[string]bool
 }
 
+// files whose "os" import is replaced by vos under -rewriteos
+var osRewriteFiles = map[string]bool{"internal/mcp/server.go": true, "internal/app/run.go": true}
+
 type scale struct{ name, file, old, new string }
 
 var scales = []scale{
@@ -68,6 +73,7 @@ func main() {
 	harness := flag.String("harness", "", "comma separated harness dirs under /verif/harness to include (empty: all)")
 	crash := flag.String("crashfuncs", "", "comma separated file.go:Func entries to instrument with crash points")
 	norewrite := flag.Bool("norewrite", false, "do not rewrite imports (pure virtual packages only)")
+	rewriteOS := flag.Bool("rewriteos", false, "rewrite the os import of the configuration-writing files to the vos shim (file mutations become crash points)")
 	flag.Parse()
 	if *out == "" {
 		fatal("missing -out")
@@ -114,6 +120,9 @@ func main() {
 				rw[k] = v
 			}
 		}
+		if *rewriteOS && osRewriteFiles[rel] {
+			rw["os"] = "vos"
+		}
 		newSrc, changed := rewriteFile(rel, src, rw, crashByFile[rel], seenCrash)
 		// scaled-down thresholds: a literal threshold no bounded history can reach is replaced by a package variable
 		// (declared in export/queue with the literal's value as default) that a harness may lower. When the expression
@@ -154,6 +163,11 @@ func main() {
 	for rel := range crashByFile {
 		processFile(rel)
 	}
+	if *rewriteOS {
+		for rel := range osRewriteFiles {
+			processFile(rel)
+		}
+	}
 	for rel, fns := range crashByFile {
 		for fn := range fns {
 			if !seenCrash[rel+":"+fn] {
@@ -180,6 +194,16 @@ func main() {
 		})
 	}
 	addTree(filepath.Join(*verif, "kit"), "internal/verifkit", nil)
+
+	// 2b. vos_gen.go: every exported identifier of package os that vos.go does not define itself
+	{
+		src, err := genVos(filepath.Join(*verif, "kit/vos/vos.go"))
+		must(err)
+		dst := filepath.Join(*out, "src", "internal/verifkit/vos/vos_gen.go")
+		must(os.MkdirAll(filepath.Dir(dst), 0o755))
+		must(os.WriteFile(dst, src, 0o644))
+		replace[filepath.Join(*repo, "internal/verifkit/vos/vos_gen.go")] = dst
+	}
 
 	// 3. export shims
 	expRoot := filepath.Join(*verif, "export")
@@ -378,6 +402,64 @@ func rewriteFile(rel string, src []byte, rw map[string]string, crashFns map[stri
 	}
 	buf.Write(src[last:])
 	return buf.Bytes(), true
+}
+
+// genVos lists package os (type-checked from source with the toolchain in use) and re-exports what vos.go lacks.
+func genVos(handPath string) ([]byte, error) {
+	fset := token.NewFileSet()
+	hf, err := parser.ParseFile(fset, handPath, nil, 0)
+	if err != nil {
+		return nil, err
+	}
+	have := map[string]bool{}
+	for _, d := range hf.Decls {
+		switch d := d.(type) {
+		case *ast.FuncDecl:
+			if d.Recv == nil {
+				have[d.Name.Name] = true
+			}
+		case *ast.GenDecl:
+			for _, sp := range d.Specs {
+				switch sp := sp.(type) {
+				case *ast.TypeSpec:
+					have[sp.Name.Name] = true
+				case *ast.ValueSpec:
+					for _, n := range sp.Names {
+						have[n.Name] = true
+					}
+				}
+			}
+		}
+	}
+	pkg, err := importer.ForCompiler(fset, "source", nil).Import("os")
+	if err != nil {
+		return nil, err
+	}
+	var b bytes.Buffer
+	b.WriteString("// Code generated by verifgen; DO NOT EDIT.\n\npackage vos\n\nimport \"os\"\n\n")
+	names := pkg.Scope().Names()
+	sort.Strings(names)
+	for _, n := range names {
+		if !ast.IsExported(n) || have[n] {
+			continue
+		}
+		switch o := pkg.Scope().Lookup(n).(type) {
+		case *types.Func:
+			fmt.Fprintf(&b, "var %s = os.%s\n", n, n)
+		case *types.TypeName:
+			tp := ""
+			if named, ok := o.Type().(*types.Named); ok && named.TypeParams().Len() > 0 {
+				continue // generic types cannot be aliased without parameters (none in os today)
+			}
+			fmt.Fprintf(&b, "type %s%s = os.%s\n", n, tp, n)
+		case *types.Const:
+			fmt.Fprintf(&b, "const %s = os.%s\n", n, n)
+		case *types.Var:
+			// a copy would go stale for variables the program assigns to (os.Args); expose the common ones by pointer-free alias
+			fmt.Fprintf(&b, "var %s = os.%s\n", n, n)
+		}
+	}
+	return b.Bytes(), nil
 }
 
 func must(err error) {
